@@ -40,6 +40,8 @@ pub struct HubCore {
     pub with_transfers: bool,
     pub with_convert: bool,
     pub with_withdraw: bool,
+    /// allowance burns (BurnFrom by a spender) of both tokens
+    pub with_burn_from: bool,
     pub seeds: Vec<&'static str>,
     pub slash_fracs: Vec<(u128, u128)>,
     pub big: bool,
@@ -63,6 +65,7 @@ impl HubCore {
             with_transfers: false,
             with_convert: true,
             with_withdraw: true,
+            with_burn_from: false,
             seeds: vec!["funded", "slashed", "inflight"],
             slash_fracs: vec![(1, 10)],
             big: false,
@@ -202,6 +205,10 @@ impl Scenario for HubCore {
                 "one_val" => {
                     cfg.registered = vec!["val1"];
                 }
+                "allowances" => {
+                    prefix.push(increase_allowance(ALICE, DAVE, BSEI, 500 * k, None));
+                    prefix.push(increase_allowance(BOB, DAVE, STSEI, 300 * k, None));
+                }
                 "bsei_only" => prefix = vec![bond(ALICE, 1000 * k)],
                 "stsei_only" => prefix = vec![bond_st(BOB, 777 * k)],
                 "pending_rewards" => {
@@ -277,6 +284,10 @@ impl Scenario for HubCore {
             }
         }
         v.push(check_slashing(CAROL));
+        if self.with_burn_from {
+            v.push(burn_from(DAVE, ALICE, BSEI, 7));
+            v.push(burn_from(DAVE, BOB, STSEI, 7));
+        }
         if self.with_rewards {
             v.push(update_index(UPDATER));
             for (val, den, amt) in &self.reward_amounts {
@@ -508,7 +519,7 @@ fn c03_step(po: &HubObs, a: &Action, out: &Outcome, qo: &HubObs, cx: &mut Cx) {
     let bonded = po.delegated > 0 && po.books() > 0;
     // the pre-state rates as C03 defines them (c03_state compares the reported ones with these in every state)
     let brate = po.bsei_rate_derived();
-    let srate = expected_rate(po.state.total_bond_stsei_amount.u128(), po.st_claims());
+    let srate = po.stsei_rate_derived();
     let peg = po.params.peg_recovery_fee;
     let fx = out.fx();
     // zero payment never mints
@@ -643,13 +654,17 @@ fn c04_step(po: &HubObs, a: &Action, out: &Outcome, qo: &HubObs, cx: &mut Cx) {
     if po.b_claims() > 0 && qo.b_claims() > 0 && pb > 0 && qb > 0 {
         cx.trigger("c04_bsei_rate_compared");
         cx.validated();
-        if qo.state.bsei_exchange_rate < po.state.bsei_exchange_rate {
+        if out.ok() && (a.is(BSEI, "burn_from") || a.is(STSEI, "burn_from")) {
+            cx.count("c04_allowance_burn_compared");
+        }
+        // the reported rate and the rate as C03 defines it (backing over claims) must both not fall
+        if qo.state.bsei_exchange_rate < po.state.bsei_exchange_rate || expected_rate(qb, qo.b_claims()) < expected_rate(pb, po.b_claims()) {
             cx.viol("C04.rate_monotone", format!("bsei rate lowered by {}", action_class(a)), format!("{}: {} -> {} (bond {}->{} claims {}->{})", a.label, po.state.bsei_exchange_rate, qo.state.bsei_exchange_rate, po.state.total_bond_bsei_amount, qo.state.total_bond_bsei_amount, po.b_claims(), qo.b_claims()));
         }
     }
     if po.st_claims() > 0 && qo.st_claims() > 0 && ps > 0 && qs > 0 {
         cx.trigger("c04_stsei_rate_compared");
-        if qo.state.stsei_exchange_rate < po.state.stsei_exchange_rate {
+        if qo.state.stsei_exchange_rate < po.state.stsei_exchange_rate || expected_rate(qs, qo.st_claims()) < expected_rate(ps, po.st_claims()) {
             cx.viol("C04.rate_monotone", format!("stsei rate lowered by {}", action_class(a)), format!("{}: {} -> {} (bond {}->{} claims {}->{})", a.label, po.state.stsei_exchange_rate, qo.state.stsei_exchange_rate, po.state.total_bond_stsei_amount, qo.state.total_bond_stsei_amount, po.st_claims(), qo.st_claims()));
         }
     }
